@@ -218,6 +218,22 @@ def r13_2(run):
         okargs = all(norm(kw(c, "target") or ast.Constant(0)).endswith(".tensor") and norm(kw(c, "source") or ast.Constant(0)).endswith(".placeholder") for c in rr)
         run.ob("R13.2", loc(rog, st), rog.short, "rollback re-routes placeholder -> original for every node of the graph", okit and okargs,
                "for node in <all nodes>: reroute_ops_through(target=node.tensor, source=node.placeholder)" if okit and okargs else "rollback direction / coverage wrong")
+        # ... on every iteration: no guard / continue in the loop body lets a node keep its ops on the placeholder
+        import networkx as nx
+        rn = {cr.stmt_node_containing(c) for c in rr}
+        rn.discard(None)
+        inside = {id(x) for b_ in st.body for x in ast.walk(b_)}
+        body_nodes = [n for n, s2 in cr.stmt.items() if s2 is not None and id(s2) in inside]
+        first = [b_ for b_ in cr.g.successors(lp) if b_ in body_nodes]
+        h = cr.g.copy()
+        h.remove_nodes_from(rn)
+        skip = [b_ for b_ in first if b_ in h and nx.has_path(h, b_, lp)] + [b_ for b_ in first if b_ not in h and False]
+        # (a first body node that *is* the reroute call is trivially fine)
+        run.ob("R13.2", loc(rog, st), rog.short, "every iteration of the rollback loop re-routes its node", bool(rn) and not skip,
+               "the re-routing call cuts every path from the loop body back to the loop header" if rn and not skip else
+               "an iteration can finish without re-routing (a guard / `continue` ahead of reroute_ops_through): the ops that consumed that tensor stay "
+               "attached to its placeholder after a failed in-place update -- the public tensor is never cleared by backward() and its arrays stay locked",
+               path=cr.path_text(nx.shortest_path(h, skip[0], lp)) if skip else None)
     # no write to `self`'s own array before the kernel: out= target must not be self.data in tracked mode
     tgt = kw(k, "out")
     ok = norm(tgt) not in ("self.data", "self.data.base")
